@@ -24,11 +24,25 @@ def built_list_ok(t: Term, parameters: Term, cond=None) -> bool:
     b1 = App('call:' + PL + '.build', (parameters,))
     b2 = App('call:' + PL + '.build', (App('new:' + PL, (parameters,)),))
     is_pl = [AEq(App('type', (parameters,)), Sym(PL)), AIsInst(parameters, Sym(PL))]
+    def plain(x):
+        # ParameterList(parameters) written through `cls(...)` in a classmethod carries the class it was called on
+        if isinstance(x, App) and x.fn == 'new:' + PL and x.args == (parameters,) and all(k == '<cls>' and v == Sym(PL) for k, v in x.kw):
+            return App('new:' + PL, (parameters,))
+        return x
     if isinstance(t, IfT):
         if t.cond in is_pl and t.a == b1 and t.b == b2:
             return True
         if f_not(t.cond) in is_pl and t.a == b2 and t.b == b1:
             return True
+    # the list is chosen first and built once: build(parameters if <is a ParameterList> else ParameterList(parameters))
+    if isinstance(t, App) and t.fn == 'call:' + PL + '.build' and len(t.args) == 1 and isinstance(t.args[0], IfT):
+        c = t.args[0]
+        if c.cond in is_pl and c.a == parameters and plain(c.b) == App('new:' + PL, (parameters,)):
+            return True
+        if f_not(c.cond) in is_pl and c.b == parameters and plain(c.a) == App('new:' + PL, (parameters,)):
+            return True
+    if isinstance(t, App) and t.fn == 'call:' + PL + '.build' and len(t.args) == 1:
+        t = App(t.fn, (plain(t.args[0]),))
     if cond is not None:
         if t == b1 and any(implies(cond, a) is None for a in is_pl):
             return True
